@@ -132,7 +132,7 @@ ADVERSARIAL = ["Union[Literal[Uno.X], NoReturn]", "Union[Literal[Uno.X], Literal
 # fixed (seed-independent) part of the universe used by the S oracle
 S_CORE = ["Any", "NoReturn", "None", "object", "A", "B", "D", "E", "G", "H", "int", "float", "bool", "str", "Color", "Uno",
           "Literal[1]", "Literal[0]", "Literal[True]", "Literal['a']", "Literal[Color.R]", "Literal[Uno.X]", "IntCo", "InvB",
-          "Tuple[()]", "Inv[A]", "Inv[B]", "Inv[Any]", "Co[A]", "Co[B]", "Co[Any]", "Co[int]", "Contra[A]", "Contra[B]",
+          "Tuple[()]", "Inv[A]", "Inv[B]", "Inv[Any]", "Co[A]", "Co[B]", "Co[Any]", "Co[int]", "Contra[A]", "Contra[B]", "Contra[int]", "Contra[float]", "Co[float]", "Inv[float]",
           "CoSub[B]", "Pair[A, B]", "PairSub[bool, int]", "Union[int, None]", "Union[A, E]", "Union[B, C, D]",
           "Union[Literal[True], Literal[False]]", "Union[Literal[Color.R], Literal[Color.G]]", "Union[int, str, None]",
           "Union[Literal[1], int, Literal[2]]", "Union[object, A]", "Tuple[int]", "Tuple[A, B]", "Tuple[bool, int]",
@@ -568,6 +568,7 @@ def worker(mode: str, k: int, n: int, seed: int, tier: str) -> None:
         out["cache_violations"] = cache_viol[:20]
         if k == 0:
             out["wf"] = run_model(["wf"])[0]
+            out["chains_ok_3"] = run_model(["chains 3"])[0]
             fr = run_model(["frag1 " + " ".join(x) for x in UT if x is not None])
             out["in_frag1"] = sum(1 for x in fr if x == "true")
             fr = run_model(["fragup " + " ".join(x) for x in UT if x is not None])
@@ -779,6 +780,13 @@ def worker(mode: str, k: int, n: int, seed: int, tier: str) -> None:
                                     ms.is_proper_subtype(wa, wb), ms.is_proper_subtype(wb, wc), ms.is_proper_subtype(wa, wc)]
         except Exception as e:  # noqa
             out["trans_witness"] = repr(e)
+        # replay of Properties.meet_lower_refuted: meet(Contra[float], Contra[int])
+        try:
+            wf_, wi = U[core.index("Contra[float]")], U[core.index("Contra[int]")]
+            m1, m2 = mm.meet_types(wf_, wi), mm.meet_types(wi, wf_)
+            out["meet_lower_witness"] = [str(m1), str(m2), ms.is_subtype(m1, wf_), ms.is_subtype(wf_, wi)]
+        except Exception as e:  # noqa
+            out["meet_lower_witness"] = repr(e)
         # replay of Properties.join_comm_equiv_refuted: D(B, C) vs H(C, B)
         try:
             wd, wh = U[core.index("D")], U[core.index("H")]
@@ -835,7 +843,10 @@ def run(ctx: Any) -> None:
                        "different types; S evaluates the laws on real mypy over core subset + exotic kinds, all pairs, all Any-free triples")
     ctx.assumptions += [
         "model hand-written from mypy/subtypes.py, join.py, meet.py, typeops.py, typestate.py; tied by correspondence on the fixture universe only",
-        "fuel: model functions return None when out of fuel (depth 64 in the driver); theorems are statements about defined answers",
+        "fuel: model functions return None when out of fuel (depth 64 in the driver); theorems are statements about defined answers; "
+        "on fragment F1 definedness is proved (fuel_sufficient_partial) from chains_ok, which is evaluated on the real class table",
+        "fragments: F1 = None, Never, non-generic non-protocol classes other than bool/enums, their literals, flat unions of these; "
+        "F1up = F1 with all ancestors plain; the number of universe types inside is reported (universe_types_in_fragment_F1/F1up)",
         "not modelled: protocols/structural subtyping (cases that reach is_protocol_implementation are counted and skipped), "
         "last_known_value, extra_attrs, TypeVars, callables, Type[...], TypedDict, variadic tuples, named tuples, recursive aliases, "
         "InstanceJoiner.seen_instances recursion guard, alt_promote (native ints), strict_optional=False",
@@ -877,6 +888,11 @@ def run(ctx: Any) -> None:
             ctx.sample(r.get("sample"))
             ctx.cov["universe_types_in_fragment_F1"] = r.get("in_frag1")
             ctx.cov["universe_types_in_fragment_F1up"] = r.get("in_frag_up")
+            ctx.cov["class_table_wf_ct"] = r.get("wf")
+            ctx.cov["class_table_chains_ok_3"] = r.get("chains_ok_3")
+            if r.get("chains_ok_3") != "true":
+                ctx.broke("C", "chains_ok", "promotion chains of the real class table are longer than 3: the fuel bound of "
+                          "fuel_sufficient_partial (driver fuel 64 > 3 + 3) is not established for it")
             if r.get("wf") != "true":
                 ctx.broke("C", "wf_ct", "the extracted well-formedness predicate rejects the class table of the real fixture")
     ctx.cov.update({"C_" + k2: v2 for k2, v2 in tot.items()})
@@ -892,6 +908,10 @@ def run(ctx: Any) -> None:
             continue
         ctx.cov["S_universe"] = r["S_universe"]
         ctx.cov["trans_refuted_witness_on_mypy"] = r.get("trans_witness")
+        ctx.cov["meet_lower_refuted_witness_on_mypy"] = r.get("meet_lower_witness")
+        if r.get("meet_lower_witness") != ["c08fx.Contra[int]", "c08fx.Contra[int]", False, True]:
+            ctx.broke("C", "meet_lower_refuted replay",
+                      f"the model's counterexample meet(Contra[float], Contra[int]) = Contra[int] does not behave the same on mypy: {r.get('meet_lower_witness')}")
         ctx.cov["join_comm_refuted_witness_on_mypy"] = r.get("join_comm_witness")
         if r.get("join_comm_witness") != ["c08fx.B", "c08fx.C", False, False]:
             ctx.broke("C", "join_comm_equiv_refuted replay",
